@@ -711,6 +711,16 @@ func (s *shutRun) closeTransport(side int) {
 	s.mu.Lock()
 	s.trCloseNS[side][1] = s.stamp()
 	s.mu.Unlock()
+	if side == 0 {
+		// a Dial on the closed transport fails at once
+		s.call(0, "dial-later", true, func() error {
+			c, e := s.nodes.Dial(s.actx)
+			if e == nil {
+				c.CloseWithError(0, "")
+			}
+			return e
+		})
+	}
 	// the application closes its socket as well (nobody reads from it any more)
 	if side == 0 {
 		s.nodes.CConn.Close()
@@ -1292,6 +1302,36 @@ func (s *shutRun) judge() {
 		return
 	}
 	s.res.Fault("cause-" + sc.Cause)
+	if s.causeFiredNS > 0 {
+		when := "after-handshake"
+		for _, c := range s.calls {
+			if c.kind == "dial" && (!c.done || s.causeFiredNS <= c.retNS) {
+				when = "during-handshake"
+			}
+		}
+		rtt := 2 * (sc.Net.LatencyUS + sc.Net.JitterUS) * 1000
+		if when == "after-handshake" {
+			for d := 0; d < 2; d++ {
+				for _, rec := range w.Log[d] {
+					if rec.SentNS >= s.causeFiredNS-rtt && rec.SentNS <= s.causeFiredNS {
+						for _, p := range rec.Pkts {
+							for i := range p.Frames {
+								if p.Frames[i].Name == "STREAM" && p.Frames[i].Length > 500 {
+									when = "mid-transfer"
+								}
+							}
+						}
+					}
+				}
+			}
+		}
+		s.res.Probe("timing:" + sc.Cause + ":" + when)
+		for _, o := range sc.Net.Outages {
+			if ms := s.causeFiredNS / 1e6; ms >= o.FromMS && ms < o.ToMS {
+				s.res.Probe("timing:" + sc.Cause + ":during-outage")
+			}
+		}
+	}
 	var tc *TapConn
 	for _, c := range w.Tap.Conns {
 		if !c.Shadow {
@@ -1390,6 +1430,13 @@ func (s *shutRun) judge() {
 			continue
 		case "lnaccept":
 			s.judgeAccept(c)
+			continue
+		case "dial-later":
+			if !c.done || c.retNS > c.startNS+shutPrompt || shutClass(c.err) != "tr-closed" {
+				s.report("(2) Dial on a closed transport does not fail at once with the transport-closed error", "done=%v after %v: %v", c.done, time.Duration(c.retNS-c.startNS), c.err)
+			} else {
+				s.res.Probe("later:tr-closed/dial")
+			}
 			continue
 		}
 		sd := s.sides[c.side]
@@ -1794,6 +1841,37 @@ func (s *shutRun) judgeWire(k int, v *shutView, ccs []shutCC, tc *TapConn) {
 		}
 	}
 	local := v.class == "app-local" || v.class == "tr-local"
+	if v.done {
+		// (5) a connection that has ended sends nothing but (where due) its CONNECTION_CLOSE packet
+		for _, p := range tc.Packets {
+			if p.Dir != k || p.SentNS <= v.doneNS+shutPrompt {
+				continue
+			}
+			isCC := false
+			for i := range p.Frames {
+				isCC = isCC || p.Frames[i].Name == "CONNECTION_CLOSE" || p.Frames[i].Name == "CONNECTION_CLOSE_APP"
+			}
+			if !isCC {
+				s.report("(5) connection keeps sending packets after it has ended ("+v.class+")", "side %d: ended %v, packet %s at %v", k, time.Duration(v.doneNS), p.String(), time.Duration(p.SentNS))
+				return
+			}
+		}
+		// (5) routing: once the closing period is over the connection's IDs are unknown to the transport again - with a
+		// reset key configured a late packet is answered by a stateless reset (never by the old connection)
+		if sd := s.sides[k]; v.handle && sd.lateNS > 0 && s.sc.ResetKey && sd.probeLen > 43 && !s.trClosed[k] {
+			got := false
+			for _, rec := range s.w.Log[k] {
+				if rec.SentNS >= sd.lateNS && len(rec.Pkts) == 1 && !rec.Pkts[0].Opened && rec.Pkts[0].Type != TapRetry && rec.Pkts[0].Type != TapVN {
+					got = true
+				}
+			}
+			if !got {
+				s.report("(5) late packet for an ended connection is not treated as belonging to an unknown connection (no stateless reset)", "side %d: ended %v, %d late packets from %v on", k, time.Duration(v.doneNS), s.sc.ProbesLate, time.Duration(sd.lateNS))
+				return
+			}
+			s.res.Probe("late-packets-answered-by-stateless-reset")
+		}
+	}
 	if !local {
 		if len(mine) > 0 && (v.done || v.class == "alive") {
 			if v.class == "reset" {
